@@ -7,6 +7,7 @@ import (
 	"os"
 	"sort"
 	"strings"
+	"sync"
 	"testing/synctest"
 	"time"
 )
@@ -258,6 +259,8 @@ type settleOpts struct {
 	held        map[string]bool       // links held back; owned by the caller so that a hold can span scenario events
 	auto        func(msg []byte) bool // messages that are delivered right away in canonical order (no choice point)
 	keepHeld    bool                  // at quiescence offer to keep the held links into the next event
+	pairs       bool                  // offer the concurrent delivery of the heads of two links that end at the same node
+	pairDone    func(l1, l2 string)   // called after a concurrent delivery
 }
 
 // deliverable returns, per eligible link, the canonical labels of the messages that may be delivered next.
@@ -447,6 +450,21 @@ func (m *mesh) exploreSettle(r *xrun, o settleOpts) string {
 		if r.visit(m.stateKey(held, sinceTick, ctx)) {
 			return "pruned"
 		}
+		if o.pairs {
+			// default order = oldest batch first (the flood advances as a wave, as it does when all links
+			// have the same latency), so that the copies of one update that travel along different paths
+			// are pending at their meeting point together
+			age := map[string]int{}
+			for _, k := range links {
+				sk := m.sess[k]
+				sk.mu.Lock()
+				if len(sk.outbox) > 0 {
+					age[k] = sk.outbox[0].batch
+				}
+				sk.mu.Unlock()
+			}
+			sort.SliceStable(links, func(i, j int) bool { return age[links[i]] < age[links[j]] })
+		}
 		var opts []string
 		for _, k := range links {
 			opts = append(opts, labels[k]...)
@@ -481,11 +499,33 @@ func (m *mesh) exploreSettle(r *xrun, o settleOpts) string {
 				}
 			}
 		}
+		if o.pairs {
+			for i, k1 := range links {
+				for _, k2 := range links[i+1:] {
+					if strings.Split(k1, ">")[1] == strings.Split(k2, ">")[1] && !m.scripted[strings.Split(k1, ">")[1]] {
+						for _, l1 := range labels[k1] {
+							for _, l2 := range labels[k2] {
+								opts = append(opts, "pair "+l1+" || "+l2)
+							}
+						}
+					}
+				}
+			}
+		}
 		if !o.noTick {
 			opts = append(opts, "tick")
 		}
 		if o.canFireNext {
 			opts = append(opts, "next-event")
+		}
+		if dbg := os.Getenv("VERIF_DBGPAIRS"); dbg != "" {
+			f, _ := os.OpenFile(dbg, os.O_APPEND|os.O_CREATE|os.O_WRONLY, 0o644)
+			for _, o := range opts {
+				if strings.HasPrefix(o, "pair ") {
+					fmt.Fprintln(f, o)
+				}
+			}
+			f.Close()
 		}
 		c := r.choose(opts)
 		switch {
@@ -495,6 +535,41 @@ func (m *mesh) exploreSettle(r *xrun, o settleOpts) string {
 			sinceTick = map[string][]string{}
 		case c == "next-event":
 			return "next"
+		case strings.HasPrefix(c, "pair "):
+			// both messages are handed over before the node gets to run; log statements are yield points
+			parts := strings.SplitN(strings.TrimPrefix(c, "pair "), " || ", 2)
+			var ds [][]byte
+			var ss []*hSess
+			for _, l := range parts {
+				k := strings.SplitN(l, " ", 3)[1]
+				sk := m.sess[k]
+				ds = append(ds, sk.take(index[l]))
+				ss = append(ss, sk)
+				dst := strings.Split(k, ">")[1]
+				sinceTick[dst] = append(sinceTick[dst], l)
+			}
+			m.step++
+			logYield(true)
+			var wg sync.WaitGroup
+			for i := range ds {
+				wg.Add(1)
+				go func(i int) {
+					defer wg.Done()
+					ss[i].inject(ds[i])
+				}(i)
+			}
+			wg.Wait()
+			// the handlers sleep (virtually) at their yield points: let that time pass, a few milliseconds
+			// at a time, until everybody is blocked for good
+			for i := 0; i < 10; i++ {
+				time.Sleep(2 * time.Millisecond)
+				synctest.Wait()
+			}
+			logYield(false)
+			r.steps += 2
+			if o.pairDone != nil {
+				o.pairDone(parts[0], parts[1])
+			}
 		case strings.HasPrefix(c, "hold "):
 			held[strings.TrimPrefix(c, "hold ")] = true
 		case strings.HasPrefix(c, "dup d "):
